@@ -175,6 +175,7 @@ const (
 	sigCAS = "torn-serve/kind=cas/storage=uncompressed/read=size-unknown"
 	sigRAW = "torn-serve/kind=raw/read=size-unknown"
 	sigAC  = "torn-serve/kind=ac/read=size-unknown/parses=yes"
+	sigCASFull   = "unverified-serve/kind=cas/storage=uncompressed/read=size-known/payload=wrong-bytes-of-declared-length"
 	sigOverwrite = "acked-lost/in-flight-reupload-of-same-key-shadows-acked-file"
 )
 
@@ -278,7 +279,18 @@ func TestC08CrashRestart(t *testing.T) {
 			} else if crashAt >= nreads-1 {
 				stage = "all-data-not-finalised"
 			}
-			rd := &snapReader{data: inflight.data, slice: slice, crashAt: crashAt}
+			// The client may also be sending bytes that do not match the digest it
+			// named: the upload will be refused, but a kill can come first.
+			sendData := inflight.data
+			if inflight.kind == cache.CAS && op == "upload" && rapid.IntRange(0, 3).Draw(t, "corruptUpload") == 0 {
+				sendData = append([]byte{}, inflight.data...)
+				sendData[rapid.IntRange(0, n-1).Draw(t, "flipAt")] ^= 0x20
+				if rapid.Bool().Draw(t, "crashAtEnd") {
+					crashAt = nreads - 1 + rapid.IntRange(0, 1).Draw(t, "eofRead")
+				}
+				stage = "corrupt-payload-" + map[bool]string{true: "all-data-not-finalised", false: "mid"}[crashAt >= nreads-1]
+			}
+			rd := &snapReader{data: sendData, slice: slice, crashAt: crashAt}
 			rd.snap = func(pos int) {
 				v := inflight
 				images = append(images, image{dir: copyDir(s.Dir), stage: op + ":" + stage, inflight: &v, torn: pos, acked: snapshotAcked()})
@@ -499,6 +511,9 @@ func checkImage(t *rapid.T, im image, before, after, codec string, maxSize int64
 				if sz < 0 && E.Known(sigCAS) {
 					continue
 				}
+				if sz >= 0 && before == "uncompressed" && strings.Contains(im.stage, "corrupt-payload") && int64(len(got)) == sz && E.Known(sigCASFull) {
+					continue
+				}
 				t.Fatalf("torn CAS entry served: %d bytes whose SHA-256 is not %s (size=%d)\n%s", len(got), v.hash, sz, desc)
 			}
 			if v.kind != cache.CAS && !oneOf(got, cands) {
@@ -514,7 +529,9 @@ func checkImage(t *rapid.T, im image, before, after, codec string, maxSize int64
 		}
 		if v.kind == cache.CAS {
 			if hit, got := read(v.kind, v.hash, int64(len(v.data)), true); hit && !bytes.Equal(got, v.data) {
-				t.Fatalf("torn CAS entry served through the compressed read\n%s", desc)
+				if !(before == "uncompressed" && strings.Contains(im.stage, "corrupt-payload") && len(got) == len(v.data) && E.Known(sigCASFull)) {
+					t.Fatalf("torn CAS entry served through the compressed read\n%s", desc)
+				}
 			}
 		}
 		if v.kind == cache.AC {
